@@ -317,7 +317,8 @@ class CompositeFrontend(ConstrainedFrontend):
     #
 
     def _ensure_sat(self, extra_constraints):
-        if self._unsat or (len(extra_constraints) == 0 and not self.satisfiable()):
+        # with extra constraints, too: they only involve some children, any of the others may be unsatisfiable
+        if self._unsat or not self.satisfiable(extra_constraints=extra_constraints):
             raise UnsatError("CompositeSolver is already unsat")
 
     def check_satisfiability(self, extra_constraints=(), exact=None):
